@@ -112,6 +112,10 @@ Definition run_request (req : sx) : sx :=
         else if which =? 8 then L [sx_of_strs (py_rsplit_texts x m y); offs (py_rsplit_offsets x m y)]
         else A (-1)
       | _ => A (-1) end
+    else if c =? 12 then                             (* slice bound normalisation: len, bound (or []), default *)
+      match args with
+      | [A ln; v; A d] => sx_of_nat (slice_idx (Z.to_nat ln) (optz_of_sx v) (Z.to_nat d))
+      | _ => A (-1) end
     else A (-1)
   | _ => A (-1)
   end.
